@@ -28,13 +28,15 @@ import (
 
 // Outcomes of one device step.
 const (
-	oDone      = "done"          // the device performs the transition of its table
-	oRefused   = "refused"       // the device stays where it is and says so
-	oError     = "error"         // the device ends in ERROR and says so
-	oXport     = "xport"         // the request fails in transport (gRPC UNAVAILABLE), device untouched
-	oBogusEvt  = "bogus-event"   // conformance: device untouched, reply claims success but carries another event
-	oBogusTrig = "bogus-trigger" // conformance: device untouched, reply claims success but trigger != EXECUTOR
-	oRejected  = "rejected"      // not scriptable: srcState mismatch -> INVALID_ARGUMENT (device's own behaviour)
+	oDone      = "done"             // the device performs the transition of its table
+	oRefused   = "refused"          // the device stays where it is and says so
+	oError     = "error"            // the device ends in ERROR and says so
+	oXport     = "xport"            // the request fails in transport BEFORE the device acted (gRPC UNAVAILABLE, device untouched)
+	oXportLate = "xport-late"       // the device performs the transition of its table, then the reply is lost (UNAVAILABLE)
+	oXportErr  = "xport-late-error" // the device ends in ERROR, then the reply is lost (UNAVAILABLE)
+	oBogusEvt  = "bogus-event"      // conformance: device untouched, reply claims success but carries another event
+	oBogusTrig = "bogus-trigger"    // conformance: device untouched, reply claims success but trigger != EXECUTOR
+	oRejected  = "rejected"         // not scriptable: srcState mismatch -> INVALID_ARGUMENT (device's own behaviour)
 )
 
 // FairMQ device states (fair::mq::State names as the plugin prints them).
@@ -115,11 +117,16 @@ var directModel = devModel{
 // available lists the outcomes enumerated for a request of evt in state st. The
 // first entry is the one used to pad a script prefix.
 func (m *devModel) available(st, evt string) []string {
-	out := make([]string, 0, 6)
-	if _, ok := m.Table[st][evt]; ok {
+	out := make([]string, 0, 8)
+	_, row := m.Table[st][evt]
+	if row {
 		out = append(out, oDone)
 	}
-	return append(out, oRefused, oError, oXport, oBogusEvt, oBogusTrig)
+	out = append(out, oRefused, oError, oXport)
+	if row {
+		out = append(out, oXportLate)
+	}
+	return append(out, oXportErr, oBogusEvt, oBogusTrig)
 }
 
 // stepRec is one Transition request as the device saw it.
@@ -206,6 +213,14 @@ func (d *fakeDevice) Transition(_ context.Context, req *pb.TransitionRequest) (*
 		reply = d.faithfulReply(evt, fin)
 	case oXport:
 		err = status.Error(codes.Unavailable, "injected transport error")
+	case oXportLate:
+		if inTable {
+			d.state = next
+		}
+		err = status.Error(codes.Unavailable, "injected transport error: reply lost")
+	case oXportErr:
+		d.state = d.errorState()
+		err = status.Error(codes.Unavailable, "injected transport error: reply lost")
 	case oBogusEvt:
 		other := d.model.Other
 		if other == evt {
